@@ -1697,6 +1697,11 @@ def run(ctx: Context) -> None:
         if m.fatal:
             ck.unknown(rid, "the model of HttpResponse.parse could not be built", m.loc())
             continue
+        if m.problems and rid in ("C07.T1", "C07.T2", "C07.T3"):
+            # an access to the buffer that the model does not understand (an in-place splice, a helper, an alias across a
+            # re-assignment) makes every byte-accounting verdict derived from the model unreliable: not decided, no report
+            ck.unknown(rid, f"byte accounting of parse not decided: {len(m.problems)} access(es) to the buffer are outside the model (listed above)", m.loc())
+            continue
         if fn is not None:
             fn(ctx, m)
         else:
